@@ -27,7 +27,9 @@ CONSTANTS
   DataKeys,       \* [device -> set of data keys] (collision check in a bundle)
   FutNames,       \* names of suspension futures
   StreamOrder,    \* the streams as a sequence (canonical order for num_events lines)
-  DevOrder        \* the devices as a sequence (canonical order for set-iteration device calls)
+  DevOrder,       \* the devices as a sequence (canonical order for set-iteration device calls)
+  AsyncDevs       \* devices whose stop()/pause()/resume() are coroutines that really suspend (ophyd-async style):
+                  \* every such call is a further parking place of the run task (pc = "aops")
 
 Devices == Dets \cup Motors \cup Mons \cup Flyers
 Stageables == Dets \cup Motors
@@ -114,6 +116,8 @@ InitS ==
     uids |-> 0,
     lateRet |-> "",         \* an abort/stop/halt call from another thread that is itself waiting for the run to end
     recIntr |-> FALSE,      \* RE.record_interruptions (set before the call)
+    pend |-> <<>>,          \* device operations <<device, op>> still to do when parked inside an awaiting device call
+    cont |-> "",            \* what the parked sequence of device operations belongs to: "pausing" | "susp" | "resume" | "fin"
     planRet |-> FALSE ]     \* the plan ran to completion (StopIteration out of the last generator)
 
 Init == S = InitS /\ obs = <<>>
@@ -167,6 +171,20 @@ DevOpsFrom(i, D, op) ==
   IF i > Len(DevOrder) THEN <<>>
   ELSE (IF DevOrder[i] \in D THEN <<EvDev(DevOrder[i], op, "", 0)>> ELSE <<>>) \o DevOpsFrom(i + 1, D, op)
 DevOps(D, op) == DevOpsFrom(1, D, op)
+
+\* the same as a list of <<device, op>> pairs; the list is carried out up to and including the first operation that
+\* really awaits (an AsyncDevs device): the run task parks there (pc = "aops") with the rest in S.pend
+RECURSIVE OpsFrom(_, _, _)
+OpsFrom(i, D, op) ==
+  IF i > Len(DevOrder) THEN <<>>
+  ELSE (IF DevOrder[i] \in D THEN <<<<DevOrder[i], op>>>> ELSE <<>>) \o OpsFrom(i + 1, D, op)
+OpsL(D, op) == OpsFrom(1, D, op)
+Awaits(o) == o[1] \in AsyncDevs /\ o[2] \in {"stop", "pause", "resume"}
+FirstAwait(L) == IF \E i \in 1..Len(L) : Awaits(L[i]) THEN CHOOSE i \in 1..Len(L) : Awaits(L[i]) /\ \A j \in 1..(i - 1) : ~Awaits(L[j]) ELSE 0
+OpsDoneNow(L) == IF FirstAwait(L) = 0 THEN L ELSE SubSeq(L, 1, FirstAwait(L))
+OpsLeft(L) == IF FirstAwait(L) = 0 THEN <<>> ELSE SubSeq(L, FirstAwait(L) + 1, Len(L))
+OpsParks(L) == FirstAwait(L) # 0
+EvOps(L) == [i \in 1..Len(L) |-> EvDev(L[i][1], L[i][2], "", 0)]
 
 \* num_events lines that follow a stop document (one per counter present, in StreamOrder)
 RECURSIVE NevFrom(_, _, _)
@@ -239,7 +257,7 @@ CallTerminate(op) ==
 
 ----------------------------------------------------------------------------
 (* request steps: atomic, between two steps of the run task *)
-AtPark == S.pc \in {"start", "paused", "sleep0", "cmd", "tail"}
+AtPark == S.pc \in {"start", "paused", "sleep0", "cmd", "tail", "aops"}
 TaskAlive == S.pc \notin {"none", "done"}
 
 ReqObsA(kind, a, b, c, body, outcome) == <<Ev("req", kind, a, b, c, 0, 0)>> \o body \o <<Ev("reqret", kind, outcome, "", "", 0, 0)>>
@@ -372,10 +390,14 @@ Top ==
           IN IF ~S.permit THEN
                 \* pause sequence: suspend monitors, stop motors, pause devices, paused, release the caller
                 IF st1 = "pausing" THEN
-                   /\ S' = [S EXCEPT !.st = "paused", !.pc = "paused", !.blocking = TRUE,
-                                     !.runs = [k \in RunKeys |-> [S.runs[k] EXCEPT !.monsub = {}]]]
-                   /\ obs' = ev1 \o DevOps(AllMons(S), "clear_sub") \o DevOps(S.moved \cap Motors, "stop")
-                             \o DevOps(S.seen \cap Pausables, "pause") \o <<EvState("pausing", "paused")>>
+                   LET L == OpsL(AllMons(S), "clear_sub") \o OpsL(S.moved \cap Motors, "stop") \o OpsL(S.seen \cap Pausables, "pause")
+                       s1 == [S EXCEPT !.runs = [k \in RunKeys |-> [S.runs[k] EXCEPT !.monsub = {}]]]
+                   IN IF OpsParks(L) THEN
+                         /\ S' = [s1 EXCEPT !.pc = "aops", !.cont = "pausing", !.pend = OpsLeft(L)]
+                         /\ obs' = ev1 \o EvOps(OpsDoneNow(L))
+                      ELSE
+                         /\ S' = [s1 EXCEPT !.st = "paused", !.pc = "paused", !.blocking = TRUE]
+                         /\ obs' = ev1 \o EvOps(L) \o <<EvState("pausing", "paused")>>
                 ELSE \* `assert self._state == "pausing"` fails: AssertionError leaves the loop
                    /\ S' = ExitWith([S EXCEPT !.st = st1], "Err:AssertionError") /\ obs' = ev1
              ELSE
@@ -523,6 +545,15 @@ GroupDone(s, sids) == \A x \in sids : s.stDone[x] # "pending"
 GroupFailed(s, sids) == \E x \in sids : s.stDone[x] = "fail"
 
 \* Exec(d): d = device outcome for commands that call a device ("ok" | "raise" | "fail" | "later"); "ok" otherwise
+\* _start_suspender after the devices have been put to rest: rewind, push the helper plan (1275-1309)
+SuspRest(s1) ==
+  IF ~s1.cacheOn THEN Done(s1, Exc("Err:TypeError"))      \* len(None) in _rewind
+  ELSE LET s2 == Rewound(s1)
+           helper == ListGen(HelperMsgs(s1.cur, s1.rewindable, s1.cache))
+       \* the helper is pushed by the command itself; the command's own response (None) is
+       \* pushed afterwards by the finally clause -- ABOVE the helper's initial response
+       IN Done(Push(s2, helper, Val(None)), Val(None))
+
 Exec(d) ==
   /\ S.pc = "exec"
   /\ LET m == S.cur
@@ -659,20 +690,22 @@ Exec(d) ==
             /\ d = "ok"
             /\ IF ~AllIntrOK(s0) THEN S' = Done(s0, Exc("Err:KeyError")) /\ obs' = hook
                ELSE LET s1 == [s0 EXCEPT !.runs = [k \in RunKeys |-> [IntrBump(s0.runs)[k] EXCEPT !.monsub = {}]]]
-                        ob == hook \o IntrEvents(OpenKeysOf(s0.runs), s0.runs) \o DevOps(AllMons(s0), "clear_sub")
-                              \o DevOps(s0.moved \cap Motors, "stop") \o DevOps(s0.seen \cap Pausables, "pause")
-                    IN IF ~s1.cacheOn THEN S' = Done(s1, Exc("Err:TypeError")) /\ obs' = ob   \* len(None) in _rewind
-                       ELSE LET s2 == Rewound(s1)
-                                helper == ListGen(HelperMsgs(m, s1.rewindable, s1.cache))
-                            \* the helper is pushed by the command itself; the command's own response (None) is
-                            \* pushed afterwards by the finally clause -- ABOVE the helper's initial response
-                            IN /\ S' = Done(Push(s2, helper, Val(None)), Val(None))
-                               /\ obs' = ob
+                        L == OpsL(AllMons(s0), "clear_sub") \o OpsL(s0.moved \cap Motors, "stop") \o OpsL(s0.seen \cap Pausables, "pause")
+                        ob == hook \o IntrEvents(OpenKeysOf(s0.runs), s0.runs)
+                    IN IF OpsParks(L) THEN
+                          \* parked inside an awaiting stop()/pause(): the rest of the command runs later (SuspRest)
+                          /\ S' = [s1 EXCEPT !.pc = "aops", !.cont = "susp", !.pend = OpsLeft(L)]
+                          /\ obs' = ob \o EvOps(OpsDoneNow(L))
+                       ELSE /\ S' = SuspRest(s1) /\ obs' = ob \o EvOps(L)
        [] c = "_resume_from_suspender" ->
             \* RunEngine._resume 2418-2434: restore monitors (subscribes again), resume devices
             /\ d = "ok"
-            /\ S' = Done([s0 EXCEPT !.runs = [k \in RunKeys |-> [s0.runs[k] EXCEPT !.monsub = s0.runs[k].mons]]], Val(None))
-            /\ obs' = hook \o DevOps(AllMons(s0), "subscribe") \o DevOps(s0.seen \cap Pausables, "resume")
+            /\ LET s1 == [s0 EXCEPT !.runs = [k \in RunKeys |-> [s0.runs[k] EXCEPT !.monsub = s0.runs[k].mons]]]
+                   L == OpsL(AllMons(s0), "subscribe") \o OpsL(s0.seen \cap Pausables, "resume")
+               IN IF OpsParks(L) THEN
+                     /\ S' = [s1 EXCEPT !.pc = "aops", !.cont = "resume", !.pend = OpsLeft(L)]
+                     /\ obs' = hook \o EvOps(OpsDoneNow(L))
+                  ELSE /\ S' = Done(s1, Val(None)) /\ obs' = hook \o EvOps(L)
        [] OTHER ->
             \* unknown command: InvalidCommand is the response
             /\ d = "ok" /\ S' = Done(s0, Exc("InvalidCommand")) /\ obs' = hook
@@ -749,19 +782,55 @@ ClearMonsAll(ks, rs) ==
 \* generators still suspended on the stack are closed; the environment generator logs it
 CloseGens(gs) == IF \E i \in 1..Len(gs) : gs[i].k = "env" /\ ~gs[i].done /\ gs[i].pos > 0
                  THEN <<EvGen("close", "", "closed")>> ELSE <<>>
+\* the rest of the finally block once every moved motor has been stopped
+FinRest(s) ==
+  LET canIdle == "idle" \in Table[s.st]
+      res == IF ~canIdle THEN "TransitionError"
+             ELSE IF s.taskExc = "Cancelled" \/ s.stashed = "Cancelled" THEN "cancelled"
+             ELSE IF s.taskExc # None THEN s.taskExc ELSE "ok"
+  IN [s EXCEPT !.runs = [k \in RunKeys |-> ClosedRun], !.staged = {},
+               !.st = IF canIdle THEN "idle" ELSE @,
+               !.taskRes = res, !.pc = "done", !.blocking = TRUE, !.pend = <<>>, !.cont = "",
+               !.gens = [i \in 1..Len(s.gens) |-> [s.gens[i] EXCEPT !.done = TRUE]]]
+FinRestObs(s) ==
+  ClearMonsAll(OpenKeysOf(s.runs), s.runs) \o DevOps(s.staged, "unstage")
+  \o CloseAll(OpenKeysOf(s.runs), s.runs, s.exitStatus) \o CloseGens(s.gens)
+  \o (IF "idle" \in Table[s.st] THEN <<EvState(s.st, "idle")>> ELSE <<>>)
 Finally ==
   /\ S.pc = "fin"
-  /\ LET canIdle == "idle" \in Table[S.st]
-         res == IF ~canIdle THEN "TransitionError"
-                ELSE IF S.taskExc = "Cancelled" \/ S.stashed = "Cancelled" THEN "cancelled"
-                ELSE IF S.taskExc # None THEN S.taskExc ELSE "ok"
-     IN
-     /\ S' = [S EXCEPT !.runs = [k \in RunKeys |-> ClosedRun], !.staged = {},
-                       !.st = IF canIdle THEN "idle" ELSE @,
-                       !.taskRes = res, !.pc = "done", !.blocking = TRUE,
-                       !.gens = [i \in 1..Len(S.gens) |-> [S.gens[i] EXCEPT !.done = TRUE]]]
-     /\ obs' = DevOps(S.moved \cap Motors, "stop") \o ClearMonsAll(OpenKeys, S.runs) \o DevOps(S.staged, "unstage")
-               \o CloseAll(OpenKeys, S.runs, S.exitStatus) \o CloseGens(S.gens)
-               \o (IF canIdle THEN <<EvState(S.st, "idle")>> ELSE <<>>)
+  /\ LET L == OpsL(S.moved \cap Motors, "stop") IN
+     IF OpsParks(L) THEN
+        \* `await self._stop_movable_objects()` really suspends inside the finally block
+        /\ S' = [S EXCEPT !.pc = "aops", !.cont = "fin", !.pend = OpsLeft(L)]
+        /\ obs' = EvOps(OpsDoneNow(L))
+     ELSE /\ S' = FinRest(S) /\ obs' = EvOps(L) \o FinRestObs(S)
+
+----------------------------------------------------------------------------
+(* parked inside an awaiting device call (pc = "aops") *)
+\* the awaited call returns: the pending operations go on, up to the next awaiting one or to the end of the sequence
+AOpsStep ==
+  /\ S.pc = "aops" /\ ~S.cancel
+  /\ LET L == S.pend IN
+     IF OpsParks(L) THEN /\ S' = [S EXCEPT !.pend = OpsLeft(L)] /\ obs' = EvOps(OpsDoneNow(L))
+     ELSE CASE S.cont = "pausing" ->
+                 \* `self._state = "paused"` is a checked transition: only pausing -> paused is legal
+                 IF "paused" \in Table[S.st]
+                 THEN /\ S' = [S EXCEPT !.st = "paused", !.pc = "paused", !.blocking = TRUE, !.pend = <<>>, !.cont = ""]
+                      /\ obs' = EvOps(L) \o <<EvState(S.st, "paused")>>
+                 ELSE /\ S' = ExitWith([S EXCEPT !.pend = <<>>, !.cont = ""], "TransitionError") /\ obs' = EvOps(L)
+            [] S.cont = "susp" -> /\ S' = SuspRest([S EXCEPT !.pend = <<>>, !.cont = ""]) /\ obs' = EvOps(L)
+            [] S.cont = "resume" -> /\ S' = Done([S EXCEPT !.pend = <<>>, !.cont = ""], Val(None)) /\ obs' = EvOps(L)
+            [] S.cont = "fin" -> /\ S' = FinRest(S) /\ obs' = EvOps(L) \o FinRestObs(S)
+\* a cancellation is delivered inside the awaited device call
+AOpsCancel ==
+  /\ S.pc = "aops" /\ S.cancel
+  /\ LET s0 == [S EXCEPT !.cancel = FALSE, !.pend = <<>>, !.cont = ""] IN
+     CASE S.cont = "pausing" -> S' = ExitWith(s0, "Cancelled")      \* outside the inner try: leaves the loop
+       [] S.cont \in {"susp", "resume"} -> S' = CancelHandler([s0 EXCEPT !.newResp = Val(None)], FALSE)   \* inside a command
+       [] S.cont = "fin" ->
+            \* CancelledError escapes from the finally block: the rest of the clean-up never runs -- runs stay open,
+            \* devices stay staged, the state is not reset; the task ends cancelled (its done-callback releases the caller)
+            S' = [s0 EXCEPT !.taskRes = "cancelled", !.pc = "done", !.blocking = TRUE]
+  /\ obs' = <<>>
 
 =============================================================================
